@@ -7,6 +7,7 @@ package main
 import (
 	"fmt"
 	"sort"
+	"strconv"
 	"strings"
 
 	rwl "github.com/SKAARHOJ/rawpanel-lib"
@@ -161,6 +162,9 @@ func brokenStrings(rng *Rng, thorough bool) []string {
 	// the last bases carry characters that are special to formatting functions, templates and regular
 	// expressions (seed C07-7: a payload used as a fmt format string loses everything after a '%')
 	bases := []string{"Abc def", "x", "", "{\"a\": [1, 2],\n  \"b\": \"c d\"}", "Tïtle € 1",
+		// lines that LOOK like comments / directives / separators to some tool: nothing is special in a payload
+		"load from\n//nas01/panels/config.json\n(denied)", "a\n  // do not power off //\nb", "k: 1\n# note\n; semi\n-- dash\n/* c */\n* star\nREM x\n<!-- y -->\n% z\n' q\n\"\"\"\nend",
+		"{\n  // measured 2024\n  \"gain\": 3\n}", "---\n...\n===\n>>>\n<<<\n|||\n&&&",
 		"Calibration 50% done", "{\"Unit\": \"%\", \"Label\": \"Gain %d %s %v\"}", "100%% a\\nb $1 ${x} \\1 %[1]d %", "%", "a%"}
 	breaks := []string{"\n", "\r\n", "\r", "\u2028", "\t", "\n\n", " \n ", "\n\t", "\u00a0\n", "\n\u3000"}
 	var res []string
@@ -337,6 +341,69 @@ func longLineCases(rng *Rng) {
 	emitFlat("in", "Command.SetCalibrationProfile.Json", flatIn["Command.SetCalibrationProfile.Json"], mk("json", 200000))
 }
 
+// Histories of encoder calls: what a call produces for a flattened payload must not depend on what
+// earlier calls were given (seeds C03-9, C07-9: flattened topology lines cached by object identity, or
+// by PART of the content - same SVG base, other JSON).  (a) ONE message object encoded, a flattened field
+// edited in place, encoded again; (b) fresh objects that agree in every flattened field but one;
+// (c) the other payload kinds in between.  Every call is judged like a single-field case.
+func flatHistories(rng *Rng, thorough bool) {
+	docs := []string{"{\"a\": 1,\n \"b\": [2, 3]}", "{\"a\": 1,\n \"b\": [2, 4]}", "<svg>\n<g id=\"a\"/>\n</svg>", "<svg>\n<g id=\"b\"/>\n</svg>", "first\nline", "second\nline x", ""}
+	paths := []string{}
+	for p := range flatOut {
+		paths = append(paths, p)
+	}
+	sort.Strings(paths)
+	emitAll := func(msg *rwp.OutboundMessage, vals map[string]string) {
+		outs, p := encodeOut(msg)
+		for path, v := range vals {
+			kp := flatOut[path]
+			emit(L(Sym("flat"), Sym(kp[0]), Sym("out"), kp[1], v, outsSx(outs, p)))
+			c07stats["flat history "+kp[0]]++
+		}
+	}
+	rounds := 40
+	if thorough {
+		rounds = 400
+	}
+	for r := 0; r < rounds; r++ {
+		// (a) one object, edited in place between calls
+		msg := &rwp.OutboundMessage{}
+		vals := map[string]string{}
+		for _, p := range paths {
+			if rng.Intn(3) > 0 {
+				vals[p] = docs[rng.Intn(len(docs))]
+				setPath(msg.ProtoReflect(), p, vals[p])
+			}
+		}
+		emitAll(msg, vals)
+		for k := 0; k < 4; k++ {
+			p := paths[rng.Intn(len(paths))]
+			vals[p] = docs[rng.Intn(len(docs))] + strings.Repeat(" ", k)
+			setPath(msg.ProtoReflect(), p, vals[p])
+			emitAll(msg, vals)
+		}
+		// (b) fresh objects agreeing in all flattened fields but one
+		for k := 0; k < 3; k++ {
+			fresh := &rwp.OutboundMessage{}
+			p := paths[(r+k)%len(paths)]
+			vals[p] = docs[(r+k)%len(docs)] + "\n" + strconv.Itoa(r*10+k)
+			for q, v := range vals {
+				setPath(fresh.ProtoReflect(), q, v)
+			}
+			emitAll(fresh, vals)
+		}
+	}
+	// the same for the one flattened inbound field
+	im := &rwp.InboundMessage{}
+	for k := 0; k < 6; k++ {
+		v := docs[k%len(docs)] + strings.Repeat("\n", k%2) + strconv.Itoa(k)
+		setPath(im.ProtoReflect(), "Command.SetCalibrationProfile.Json", v)
+		outs, p := encodeIn(im)
+		emit(L(Sym("flat"), Sym("json"), Sym("in"), "SetCalibrationProfile=", v, outsSx(outs, p)))
+		c07stats["flat history json"]++
+	}
+}
+
 func genC07(tier string, rng *Rng) {
 	thorough := tier == "thorough"
 	var inPaths, outPaths []string
@@ -377,6 +444,7 @@ func genC07(tier string, rng *Rng) {
 		emit(L(Sym("lines"), Sym("out"), outsSx(o2, p2), ob))
 		c07stats["random field combinations"] += 2
 	}
+	flatHistories(rng, thorough)
 	svgCases(rng, thorough)
 	longLineCases(rng)
 	// strings.TrimSpace model
